@@ -25,9 +25,7 @@ LEVEL_NOTE = ("Trusted: aomon/oracles/vk.py. Tolerances scale with the condition
 RULE = "case = (variant, nx, columns | length factor, pixel scale, r0, L0, family member); non-trivial always; distinct by parameters"
 ASSUMPTIONS = ["pixel (row i, column j) of the working screen sits at (i, j) * pixel_scale and the new row at row -1",
                "the Fried reference pixel is not itself a stencil point (configurations where it is are counted and skipped)"]
-REQUIRED = ["infinitephasescreen.py:PhaseScreen.add_row", "infinitephasescreen.py:PhaseScreen.get_new_row",
-            "infinitephasescreen.py:PhaseScreenKolmogorov.get_new_row", "infinitephasescreen.py:PhaseScreen.makeAMatrix",
-            "infinitephasescreen.py:PhaseScreen.makeBMatrix", "turb.py:phase_covariance"]
+REQUIRED = ["infinitephasescreen.py:PhaseScreen.add_row", "turb.py:phase_covariance"]
 REQUIRED_COUNTERS = ["impulse_probes", "innovation_probes", "identity_entries_checked", "natural_rows_conformed", "families"]
 TIMEOUT = {"quick": 900, "thorough": 7200}
 EPS32 = float(np.finfo(np.float32).eps)
